@@ -68,6 +68,9 @@ class Plane:
         else:
             # binarize a copy, not the caller's array
             mask = np.array(mask)
+            if mask.ndim == 3 and mask.shape[0] == 1:
+                # a one-layer cube is a single segment: the same as its 2-D mask
+                mask = mask[0]
         
         mask[mask != 0] = 1
         self._mask = mask
